@@ -61,6 +61,10 @@ def generate(rng, tier):
     if rng.random() < 0.4:
         opts["charges"] = [round(rng.uniform(-1, 1), 4) for _ in spec["elements"]]
     opts["pp"] = rng.random() < 0.25
+    if rng.random() < 0.4:
+        # a LAMMPS input may already carry Pair Coeffs (and type labels) of its own
+        from .. import machine
+        spec["pair_coeffs"] = [machine.gen_coeff(rng, "in%d" % i) for i in range(len(spec["atom_type_elements"]))]
     opts["framework_element"] = "Si" if rng.random() < 0.03 else None
     opts["in_fmt"] = rng.choice(["cif", "lmpdat", "lmpdat", "cml"])
     opts["pat_fmt"] = rng.choice(["cml", "cml", "lmpdat", "cif"])
@@ -256,13 +260,17 @@ def execute(spec, ctx):
             ctx.count("find_only_runs")
             m = re.search(r"Found (\d+) instances", printed)
             if not m:
-                raise Violation("cli:find-report-missing", "find-only run did not report the number of matches", site=site)
-            if int(m.group(1)) != len(found):
+                # the wording of the report is not specified: without the known phrase nothing is judged about stdout
+                ctx.count("find_report_not_parsed")
+                m = None
+            if m is None:
+                pass
+            elif int(m.group(1)) != len(found):
                 raise Violation("cli:find-count", "command line reports %s matches, the API finds %d" % (m.group(1), len(found)), site=site)
             groups_api = sorted(sorted(int(i) for i in t) for t in found)
-            nums = re.findall(r"\(([^()]*)\)", printed[m.end():])
+            nums = re.findall(r"\(([^()]*)\)", printed[m.end():]) if m else []
             groups_cli = sorted(sorted(int(x) for x in re.findall(r"\d+", g)) for g in nums if re.search(r"\d", g))
-            if groups_cli != groups_api:
+            if m and (groups_cli or not groups_api) and groups_cli != groups_api:
                 raise Violation("cli:find-matches", "command line prints matches %s..., the API finds %s..." % (groups_cli[:3], groups_api[:3]), site=site)
         # (ii) the written file describes the same structure
         with open(out_cli) as f:
